@@ -4,3 +4,8 @@ from .manifest_gen import claim
 NOTE = ('Trusted: rustc nightly MIR construction/type resolution, the mirfacts fact model, the rule code, the spec/ tables '
         '(hand-transcribed from the OTP docs), API summaries of external crates (nom, bytes, tokio, flate2, dashmap). '
         'Decides structural clauses only; value-level behaviour, schedules and histories are not decided.')
+
+claim('C08',
+      'dispatch-table extraction from resolved MIR matches (enum discriminants, TryFrom<u8>, from_term, to_term, into_term) compared with each other and with spec/control_messages.json; interval-guarded CAST and index obligations',
+      'All 30 numbered operations and the Generic fallback are enumerated from the compiler\'s MIR: tag numbers (enum = TryFrom = protocol table), the arity guard and element->field map of from_term, the tag and field order written by to_term and into_term (mutually and against the protocol table), lossless numeric conversion (CAST) and guarded indexing (PANIC). These are necessary conditions of C08 and cover its tabular part completely; value equality of opaque fields follows from their being moved/cloned unmodified (provenance), not from execution.',
+      NOTE, 'DESIGN.md §4 C08')
